@@ -977,8 +977,8 @@ enum Tree {
     PushMut(String, Vec<Tree>),
     Locked(bool, Vec<Tree>),
     Fork(Vec<Tree>),
-    Raw(Vec<Tree>),
-    Unrec(Vec<Tree>),
+    Raw(Vec<Tree>, bool),
+    Unrec(Vec<Tree>, bool),
     Send(u32),
     Apply(u32),
 }
@@ -996,8 +996,10 @@ fn parse_tree(sx: &Sx) -> Result<Tree, String> {
         }
         ("locked", [b, rest @ ..]) => Ok(Tree::Locked(as_bool(b)?, parse_trees(rest)?)),
         ("fork", rest) => Ok(Tree::Fork(parse_trees(rest)?)),
-        ("raw", rest) => Ok(Tree::Raw(parse_trees(rest)?)),
-        ("unrec", rest) => Ok(Tree::Unrec(parse_trees(rest)?)),
+        ("raw", rest) => Ok(Tree::Raw(parse_trees(rest)?, false)),
+        ("unrec", rest) => Ok(Tree::Unrec(parse_trees(rest)?, false)),
+        ("rawf", rest) => Ok(Tree::Raw(parse_trees(rest)?, true)),
+        ("unrecf", rest) => Ok(Tree::Unrec(parse_trees(rest)?, true)),
         ("send", [n]) => Ok(Tree::Send(as_u32(n)?)),
         ("apply", [n]) => Ok(Tree::Apply(as_u32(n)?)),
         _ => Err(format!("bad context tree node `{head}`")),
@@ -1053,17 +1055,17 @@ fn run_tree(t: &Tree, ctx: &Cx, st: &CtxState) {
                 run_tree(child, &c, st);
             }
         }
-        Tree::Raw(children) => {
+        Tree::Raw(children, fails) => {
             let mut p = tc::raw(|l: Lx, c: Cx| -> Res<()> {
                 run_trees(children, &c, st);
-                Ok(Success::new((), l))
+                if *fails { Err(Box::new(Probe(0))) } else { Ok(Success::new((), l)) }
             });
             let _ = p(dummy_lexer(), ctx.clone());
         }
-        Tree::Unrec(children) => {
+        Tree::Unrec(children, fails) => {
             let mut p = tc::unrecoverable(|l: Lx, c: Cx| -> Res<()> {
                 run_trees(children, &c, st);
-                Ok(Success::new((), l))
+                if *fails { Err(Box::new(Probe(0))) } else { Ok(Success::new((), l)) }
             });
             let _ = p(dummy_lexer(), ctx.clone());
         }
